@@ -43,6 +43,8 @@ DOCX_FEATURES = {
     "text-before-first-heading": "body paragraphs before the first heading (twin: they follow the heading)",
     "table-cell-multi-para": "table cell with two paragraphs (twin: one paragraph)",
     "empty-section": "a heading directly followed by a heading of the same level, i.e. a section without body text (twin: one paragraph between them)",
+    "empty-table": "a table whose cells are all empty between two filled tables (twin: its first cell is filled)",
+    "nested-sdt": "block-level content controls nested in a group control, two and three levels deep, around paragraphs and a table (twin: the same blocks in single-level controls)",
 }
 PPTX_FEATURES = {
     "slide-target-absolute": "presentation rel target /ppt/slides/slideN.xml (twin: slides/slideN.xml)",
@@ -51,6 +53,7 @@ PPTX_FEATURES = {
     "field-run": "a:fld run inside a paragraph (twin: a:r)",
     "multi-image-slides": "images on several slides (numbering must run 1..n) (twin: all images on one slide)",
     "line-break": "a:br between two runs (twin: separate paragraphs)",
+    "empty-table": "a table whose cells are all empty between two filled tables (twin: its first cell is filled)",
 }
 XLSX_FEATURES = {
     "duration-cell": "cell with a duration number format (twin: plain number)",
@@ -59,6 +62,7 @@ XLSX_FEATURES = {
     "no-core-props": "no docProps/core.xml (twin: present)",
     "sheet-order-vs-file": "sheet order in workbook.xml differs from sheetN.xml numbering, images on 2nd (twin: same order)",
     "leading-empty-row": "data starts at row 2 (twin: row 1)",
+    "no-dimension": "worksheet without the optional <dimension> element and a first row narrower than the rows below (twin: <dimension> present)",
     "image-size-unknown": "picture in a format whose size cannot be sniffed (EMF) anchored with ext cx=cy=0 (twin: PNG with a real extent)",
 }
 
@@ -78,7 +82,8 @@ def _rels(items: list[tuple[str, str, str, str | None]]) -> bytes:
     return f'<?xml version="1.0" encoding="UTF-8" standalone="yes"?><Relationships xmlns="{PKG_REL}">{body}</Relationships>'.encode()
 
 
-def _core(meta: dict) -> bytes:
+def _core(meta: dict, rng=None) -> bytes:
+    """core.xml; every element is optional: with rng, created / modified are each present or absent (both 70 %)."""
     ns = ('xmlns:cp="http://schemas.openxmlformats.org/package/2006/metadata/core-properties" '
           'xmlns:dc="http://purl.org/dc/elements/1.1/" xmlns:dcterms="http://purl.org/dc/terms/" '
           'xmlns:xsi="http://www.w3.org/2001/XMLSchema-instance"')
@@ -87,8 +92,11 @@ def _core(meta: dict) -> bytes:
                      ("cp:keywords", "keywords"), ("dc:description", "description")):
         if key in meta:
             f.append(f"<{tag}>{escape(meta[key])}</{tag}>")
-    f.append('<dcterms:created xsi:type="dcterms:W3CDTF">2024-01-02T03:04:05Z</dcterms:created>')
-    f.append('<dcterms:modified xsi:type="dcterms:W3CDTF">2024-02-03T04:05:06Z</dcterms:modified>')
+    dates = "both" if rng is None else rng.choice(["both"] * 7 + ["created", "modified", "none"])
+    if dates in ("both", "created"):
+        f.append('<dcterms:created xsi:type="dcterms:W3CDTF">2024-01-02T03:04:05Z</dcterms:created>')
+    if dates in ("both", "modified"):
+        f.append('<dcterms:modified xsi:type="dcterms:W3CDTF">2024-02-03T04:05:06Z</dcterms:modified>')
     return f'<?xml version="1.0" encoding="UTF-8" standalone="yes"?><cp:coreProperties {ns}>{"".join(f)}</cp:coreProperties>'.encode()
 
 
@@ -193,14 +201,15 @@ def build_docx(seed: int, feature: str | None = None, twin: bool = False):
             ppr = f'<w:pPr><w:numPr><w:ilvl w:val="{rng.randint(0, 2)}"/><w:numId w:val="1"/></w:numPr></w:pPr>'
         return f"<w:p>{ppr}{para_runs(cls)}</w:p>"
 
-    def table(rows, cols, multi_para=False, nested=None):
+    def table(rows, cols, multi_para=False, nested=None, blank=None):
+        """blank: None = random empty cells; "all" = every cell empty; "all-but-first" = its control twin."""
         grid = []
         xml = ['<w:tbl><w:tblPr><w:tblW w:w="0" w:type="auto"/></w:tblPr><w:tblGrid>' + "<w:gridCol/>" * cols + "</w:tblGrid>"]
         for i in range(rows):
             xml.append("<w:tr>")
             grow = []
             for j in range(cols):
-                if rng.random() < 0.12 and not (i == 0 and j == 0):
+                if (rng.random() < 0.12 and not (i == 0 and j == 0)) if blank is None else (blank == "all" or (i, j) != (0, 0)):
                     xml.append("<w:tc><w:p/></w:tc>")
                     grow.append({"empty": True})
                     continue
@@ -304,7 +313,7 @@ def build_docx(seed: int, feature: str | None = None, twin: bool = False):
     parts["word/_rels/document.xml.rels"] = _rels(rels)
     parts["_rels/.rels"] = _rels([("rId1", REL_T + "officeDocument", "word/document.xml", None),
                                   ("rId2", "http://schemas.openxmlformats.org/package/2006/relationships/metadata/core-properties", "docProps/core.xml", None)])
-    parts["docProps/core.xml"] = _core(meta)
+    parts["docProps/core.xml"] = _core(meta, random.Random(f"core:{seed}"))
     parts["[Content_Types].xml"] = _ct(IMG_DEFAULTS, {"/word/document.xml": "application/vnd.openxmlformats-officedocument.wordprocessingml.document.main+xml"})
     for im in images:
         exp.images.append({"sha": im["sha"], "ctype": im["ctype"], "w": im["w"], "h": im["h"], "unit": None})
@@ -333,6 +342,7 @@ def _docx_feature(feature, twin, rng, tk, exp, unit, words, para, table, image_p
         # expectation for the nested form: the outer cell (0,0) holds its own tokens followed by the inner table's tokens
         # (no claim is made on how a nested table is flattened into the cell; only text fidelity (C02) is judged through this feature)
         outer, ogrid = table(2, 2, nested=lambda: table(2, 2)[0])
+        exp.nested_tables = 2
         exp.tables_claimed = False
         return outer
     if feature == "textbox-nonempty-anchor":
@@ -351,6 +361,25 @@ def _docx_feature(feature, twin, rng, tk, exp, unit, words, para, table, image_p
         return xml
     if feature == "text-before-first-heading":
         return ""
+    if feature == "empty-table":
+        out = []        # (built strictly in document order: tokens are recorded as they are drawn)
+        for k, blank in enumerate((None, "all-but-first" if twin else "all", None)):
+            xml, g = table(2, 2 + (k == 1), blank=blank)
+            exp.tables.append({"grid": g})
+            out.append(xml)
+            out.append(para())
+        return "".join(out)
+    if feature == "nested-sdt":
+        # a group content control holding a text control, a table control and (in a table cell) a doubly nested control
+        def sdt(inner, alias):
+            return f'<w:sdt><w:sdtPr><w:alias w:val="{alias}"/></w:sdtPr><w:sdtContent>{inner}</w:sdtContent></w:sdt>'
+        p1, p2 = para(), para()      # (document order: p1, p2, table, p3)
+        t, tg = table(2, 2)
+        exp.tables.append({"grid": tg})
+        p3 = para()
+        if twin:
+            return sdt(p1, "one") + sdt(p2, "two") + sdt(t, "three") + p3
+        return sdt(p1 + sdt(p2, "inner-text") + sdt(sdt(t, "inner-table"), "middle") + p3, "group")
     if feature == "empty-section":
         def h():
             return f'<w:p><w:pPr><w:pStyle w:val="Heading1"/></w:pPr>{_wr(" ".join(exp.text(tk.new("h"), unit, True) for _ in range(rng.randint(1, 2))))}</w:p>'
@@ -400,6 +429,33 @@ def build_pptx(seed: int, feature: str | None = None, twin: bool = False):
         sid = 2
         empty = rng.random() < 0.12 and s != feature_slide and n_slides > 1
 
+        def add_table(all_empty=False, first_filled_only=False):
+            """A table graphic frame on the current slide; all_empty: every cell empty; first_filled_only: its control twin."""
+            nonlocal sid, y
+            rows, cols = rng.randint(1, 3), rng.randint(1, 3)
+            if all_empty or first_filled_only:
+                rows, cols = max(rows, 2), max(cols, 2)
+            grid, trs = [], []
+            for i in range(rows):
+                grow, tcs = [], []
+                for j in range(cols):
+                    blank = (rng.random() < 0.12 and (i or j)) if not (all_empty or first_filled_only) else not (first_filled_only and i == 0 and j == 0)
+                    if blank:
+                        tcs.append("<a:tc><a:txBody><a:bodyPr/><a:p/></a:txBody><a:tcPr/></a:tc>")
+                        grow.append({"empty": True})
+                    else:
+                        t = toks("c", 1, 2)
+                        tcs.append(f"<a:tc><a:txBody><a:bodyPr/>{_ap(_ar(' '.join(t)))}</a:txBody><a:tcPr/></a:tc>")
+                        grow.append({"toks": t})
+                grid.append(grow)
+                trs.append('<a:tr h="370840">' + "".join(tcs) + "</a:tr>")
+            sid += 1
+            shapes.append(f'<p:graphicFrame><p:nvGraphicFramePr><p:cNvPr id="{sid}" name="Table {sid}"/><p:cNvGraphicFramePr/><p:nvPr/></p:nvGraphicFramePr>'
+                          f'<p:xfrm><a:off x="100000" y="{y}"/><a:ext cx="5000000" cy="400000"/></p:xfrm><a:graphic><a:graphicData uri="http://schemas.openxmlformats.org/drawingml/2006/table">'
+                          f'<a:tbl><a:tblPr/><a:tblGrid>{"<a:gridCol w=\"100\"/>" * cols}</a:tblGrid>{"".join(trs)}</a:tbl></a:graphicData></a:graphic></p:graphicFrame>')
+            y += 500000
+            exp.tables.append({"grid": grid, "unit": s + 1})
+
         def sp(text_xml, ph=None, pos=True, name="s"):
             nonlocal y, sid
             sid += 1
@@ -426,26 +482,7 @@ def build_pptx(seed: int, feature: str | None = None, twin: bool = False):
                 elif k < 0.75:
                     shapes.append(sp(_ap(_ar(" ".join(toks("x", 1, 2)))), ph=None, name="TextBox"))
                 elif k < 0.9:
-                    rows, cols = rng.randint(1, 3), rng.randint(1, 3)
-                    grid, trs = [], []
-                    for i in range(rows):
-                        grow, tcs = [], []
-                        for j in range(cols):
-                            if rng.random() < 0.12 and (i or j):
-                                tcs.append("<a:tc><a:txBody><a:bodyPr/><a:p/></a:txBody><a:tcPr/></a:tc>")
-                                grow.append({"empty": True})
-                            else:
-                                t = toks("c", 1, 2)
-                                tcs.append(f"<a:tc><a:txBody><a:bodyPr/>{_ap(_ar(' '.join(t)))}</a:txBody><a:tcPr/></a:tc>")
-                                grow.append({"toks": t})
-                        grid.append(grow)
-                        trs.append('<a:tr h="370840">' + "".join(tcs) + "</a:tr>")
-                    sid += 1
-                    shapes.append(f'<p:graphicFrame><p:nvGraphicFramePr><p:cNvPr id="{sid}" name="Table {sid}"/><p:cNvGraphicFramePr/><p:nvPr/></p:nvGraphicFramePr>'
-                                  f'<p:xfrm><a:off x="100000" y="{y}"/><a:ext cx="5000000" cy="400000"/></p:xfrm><a:graphic><a:graphicData uri="http://schemas.openxmlformats.org/drawingml/2006/table">'
-                                  f'<a:tbl><a:tblPr/><a:tblGrid>{"<a:gridCol w=\"100\"/>" * cols}</a:tblGrid>{"".join(trs)}</a:tbl></a:graphicData></a:graphic></p:graphicFrame>')
-                    y += 500000
-                    exp.tables.append({"grid": grid, "unit": s + 1})
+                    add_table()
                 else:
                     pass
             # footer placeholder -> excluded
@@ -484,6 +521,10 @@ def build_pptx(seed: int, feature: str | None = None, twin: bool = False):
                 t1, t2 = toks("b", 1, 1)[0], toks("b", 1, 1)[0]
                 second = _ar(t2) if twin else f'<a:fld id="{{B1}}" type="slidenum"><a:rPr lang="en-US"/><a:t>{t2}</a:t></a:fld>'
                 shapes.append(sp(_ap(_ar(t1 + " ") + second), ph="body"))
+            elif feature == "empty-table":
+                add_table()
+                add_table(all_empty=not twin, first_filled_only=twin)
+                add_table()
             elif feature == "line-break":
                 t1, t2 = toks("b", 1, 1)[0], toks("b", 1, 1)[0]
                 shapes.append(sp(_ap(_ar(t1)) + _ap(_ar(t2)) if twin else _ap(_ar(t1) + "<a:br/>" + _ar(t2)), ph="body"))
@@ -505,7 +546,7 @@ def build_pptx(seed: int, feature: str | None = None, twin: bool = False):
     parts["ppt/_rels/presentation.xml.rels"] = _rels(pres_rels)
     parts["_rels/.rels"] = _rels([("rId1", REL_T + "officeDocument", "ppt/presentation.xml", None),
                                   ("rId2", "http://schemas.openxmlformats.org/package/2006/relationships/metadata/core-properties", "docProps/core.xml", None)])
-    parts["docProps/core.xml"] = _core(meta)
+    parts["docProps/core.xml"] = _core(meta, random.Random(f"core:{seed}"))
     parts["[Content_Types].xml"] = _ct(IMG_DEFAULTS, {"/ppt/presentation.xml": "application/vnd.openxmlformats-officedocument.presentationml.presentation.main+xml"})
     order = ["[Content_Types].xml", "_rels/.rels"] + [k for k in parts if k not in ("[Content_Types].xml", "_rels/.rels")]
     return _zip(parts, order), exp
@@ -556,6 +597,8 @@ def build_xlsx(seed: int, feature: str | None = None, twin: bool = False):
     for s in range(n_sheets):
         name_tok = exp.text(tk.new("s"), s)
         rows, cols = rng.randint(1, 6), rng.randint(2, 5)
+        if feature == "no-dimension" and s == feature_sheet:
+            rows, cols = max(rows, 3), max(cols, 3)
         grid = []
         xml_rows = []
         row_off = 1 if (risky == "leading-empty-row" and s == feature_sheet) else 0
@@ -579,6 +622,9 @@ def build_xlsx(seed: int, feature: str | None = None, twin: bool = False):
                         continue
                     if is_feat and feature == "single-cell-first-row" and not twin and j > 0:
                         grow.append({"empty": True})
+                        continue
+                    if is_feat and feature == "no-dimension" and j >= 2 and j == cols - 1:
+                        grow.append({"empty": True})     # ragged: the first row is narrower than the rows below (both forms)
                         continue
                     t = exp.text(tk.new("c"), s)
                     shared.append(t)
@@ -677,8 +723,9 @@ def build_xlsx(seed: int, feature: str | None = None, twin: bool = False):
                 legacy = '<legacyDrawing r:id="rIdV"/>'
             parts[f"xl/worksheets/_rels/sheet{fno}.xml.rels"] = _rels(sheet_rels)
             drawing_xml = '<drawing r:id="rIdD"/>' + legacy
+        dim_xml = f'<dimension ref="A1:{_col(cols - 1)}{rows + row_off}"/>'
         parts[f"xl/worksheets/sheet{fno}.xml"] = (f'<?xml version="1.0" encoding="UTF-8" standalone="yes"?><worksheet xmlns="{S}" xmlns:r="{R_NS}">'
-                                                  f'<dimension ref="A1:{_col(cols - 1)}{rows + row_off}"/><sheetData>{"".join(xml_rows)}</sheetData>{drawing_xml}</worksheet>').encode()
+                                                  f'{"" if (risky == "no-dimension" and s == feature_sheet) else dim_xml}<sheetData>{"".join(xml_rows)}</sheetData>{drawing_xml}</worksheet>').encode()
         wb_rels.append((f"rIdSh{s + 1}", REL_T + "worksheet", f"worksheets/sheet{fno}.xml", None))
         sheets_xml.append(f'<sheet name="{name_tok}" sheetId="{s + 1}" r:id="rIdSh{s + 1}"/>')
         exp.tables.append({"grid": grid, "unit": s + 1})
@@ -700,7 +747,7 @@ def build_xlsx(seed: int, feature: str | None = None, twin: bool = False):
         if k.startswith("xl/drawings/drawing"):
             overrides["/" + k] = "application/vnd.openxmlformats-officedocument.drawing+xml"
     if risky != "no-core-props":
-        parts["docProps/core.xml"] = _core(meta)
+        parts["docProps/core.xml"] = _core(meta, random.Random(f"core:{seed}"))
         root_rels.append(("rId2", "http://schemas.openxmlformats.org/package/2006/relationships/metadata/core-properties", "docProps/core.xml", None))
         overrides["/docProps/core.xml"] = "application/vnd.openxmlformats-package.core-properties+xml"
     else:
